@@ -65,7 +65,7 @@ func ConcurrentPackage(rng *core.Rng, name string, n int) *ConcPackage {
 }
 
 // NumConcTemplates is the number of template families.
-const NumConcTemplates = 18
+const NumConcTemplates = 20
 
 // ConcurrentPackageFrom: with first >= 0 the i-th case uses template (first+i) mod NumConcTemplates
 // (a sweep over packages then covers every template), with first < 0 templates are drawn at random.
@@ -188,6 +188,24 @@ func (w *WaitGroup) Wait() {
 		w.c.Wait()
 	}
 	w.mu.Unlock()
+}
+
+type VCounter struct {
+	mu *sync.Mutex
+	n  *uint64
+}
+
+func (c VCounter) inc(d uint64) {
+	c.mu.Lock()
+	*c.n = *c.n + d
+	c.mu.Unlock()
+}
+
+func (c VCounter) get() uint64 {
+	c.mu.Lock()
+	v := *c.n
+	c.mu.Unlock()
+	return v
 }
 
 func worker(mu *sync.Mutex, c *sync.Cond, wg *sync.WaitGroup, p *uint64, d uint64) {
@@ -376,6 +394,21 @@ func worker(mu *sync.Mutex, c *sync.Cond, wg *sync.WaitGroup, p *uint64, d uint6
 			}
 			s.WriteString("\twg.Wait()\n\treturn total\n")
 			body = s.String()
+		case 18:
+			// a var-declared struct VALUE holding pointers to its lock and counter, value-receiver methods
+			tmpl, det = "var-struct-value-receiver-methods", true
+			var s strings.Builder
+			s.WriteString("\tvar c VCounter\n\tc = VCounter{mu: new(sync.Mutex), n: new(uint64)}\n\twg := new(sync.WaitGroup)\n")
+			for t := 0; t < nth; t++ {
+				fmt.Fprintf(&s, "\twg.Add(1)\n\tgo func() {\n%s\t\tc.inc(%d)\n\t\twg.Done()\n\t}()\n", sleepSalt(rng), c1+t)
+			}
+			s.WriteString("\twg.Wait()\n\treturn c.get()\n")
+			body = s.String()
+		case 19:
+			// goroutines spawned in a loop; a var declared in the loop body is written by the goroutine and read by
+			// the spawner after the join of that round
+			tmpl, det = "loop-body-var-shared-with-goroutine", true
+			body = fmt.Sprintf("\tmu := new(sync.Mutex)\n\tvar total uint64 = 0\n\tfor i := uint64(0); i < %d; i++ {\n\t\tvar got uint64 = 0\n\t\twg := new(sync.WaitGroup)\n\t\twg.Add(1)\n\t\tk := i + %d\n\t\tgo func() {\n\t\t\tmu.Lock()\n\t\t\tgot = k * 2\n\t\t\tmu.Unlock()\n\t\t\twg.Done()\n\t\t}()\n\t\twg.Wait()\n\t\tmu.Lock()\n\t\ttotal = total + got\n\t\tmu.Unlock()\n\t}\n\treturn total\n", nth, c1)
 		case 10:
 			// nested goroutines and a parameter captured; two locks taken in a fixed order
 			tmpl, det = "nested-spawn-two-locks", true
